@@ -32,18 +32,19 @@ import (
 )
 
 var (
-	mA = att.Meas(0xa1)            // endorsed
+	mA = att.Meas(0xa1)              // endorsed
 	mB = att.Flip(att.Meas(0xa1), 7) // one bit away, not endorsed
-	mC = att.Meas(0xc3)            // endorsed by the second endorsement only
+	mC = att.Meas(0xc3)              // endorsed by the second endorsement only
 )
 
 type fixture struct {
-	auth   *fx.Authority
-	now    time.Time
-	end    *epb.VMLaunchEndorsement // endorses mA (count 2 and membership)
-	endBin []byte
-	end2   *epb.VMLaunchEndorsement // endorses mC only
-	end2Bin []byte
+	auth      *fx.Authority
+	now       time.Time
+	end       *epb.VMLaunchEndorsement // endorses mA (count 2 and membership)
+	endBin    []byte
+	end2      *epb.VMLaunchEndorsement // endorses mC only
+	forgedBin []byte
+	end2Bin   []byte
 }
 
 // call is one validator invocation made by a thread; it returns "nil" or "error".
@@ -157,6 +158,26 @@ func scenarios() []scenario {
 				{{"B'", func() error { return v(attB(nil), f.endBin) }, "error"}},
 			}, sharedMeas(o)
 		}},
+		{"recycled-caller-buffers/A;B(forged-in-same-buffer)|A", func(f *fixture, pt func(string)) ([][]call, func() string) {
+			// The caller reuses its memory between calls: the endorsement buffer that held the genuine
+			// endorsement now holds one whose endorsed measurement was overwritten (stale signature,
+			// same length), and the attestation object now carries the unendorsed measurement. A
+			// validator that remembers caller memory (a memo of the last accepted endorsement, a
+			// retained report) gives call B something other than its isolated result.
+			o := &verify.Options{RootsOfTrust: f.auth.Roots(), Now: f.now}
+			v := verify.SNPValidateFunc(o)
+			buf := append([]byte(nil), f.endBin...)
+			at := attA(nil)
+			return [][]call{
+				{{"A", func() error { return v(at, buf) }, "nil"},
+					{"B", func() error {
+						copy(buf, f.forgedBin)
+						at.Report.Measurement = append([]byte(nil), mB...)
+						return v(at, buf)
+					}, "error"}},
+				{{"A'", func() error { return v(attA(nil), f.endBin) }, "nil"}},
+			}, sharedMeas(o)
+		}},
 		{"closure+plain-verify-sharing-options/A|verify(other)", func(f *fixture, pt func(string)) ([][]call, func() string) {
 			o := &verify.Options{RootsOfTrust: f.auth.Roots(), Now: f.now}
 			v := verify.SNPValidateFunc(o)
@@ -186,6 +207,13 @@ func scenarios() []scenario {
 	}
 }
 
+func max(a, b int) int {
+	if a > b {
+		return a
+	}
+	return b
+}
+
 func min(a, b int) int {
 	if a < b {
 		return a
@@ -205,6 +233,19 @@ func buildFixture(tag string) *fixture {
 		mc.Fatal("%v", err)
 	}
 	f.endBin, _ = proto.Marshal(f.end)
+	{
+		// same bytes with the endorsed measurement replaced by mB: not authentic, same length
+		fg := &epb.VMGoldenMeasurement{}
+		if err := proto.Unmarshal(f.end.SerializedUefiGolden, fg); err != nil {
+			mc.Fatal("%v", err)
+		}
+		fg.SevSnp.Measurements[2] = mB
+		pb, _ := proto.Marshal(fg)
+		f.forgedBin, _ = proto.Marshal(&epb.VMLaunchEndorsement{SerializedUefiGolden: pb, Signature: f.end.Signature})
+		if len(f.forgedBin) != len(f.endBin) {
+			mc.Fatal("forged endorsement has a different length")
+		}
+	}
 	g2 := att.Golden(map[uint32][]byte{2: mC}, nil, true, nil, false, fx.T0)
 	f.end2, _ = auth.SignGolden(g2, fx.T0)
 	f.end2Bin, _ = proto.Marshal(f.end2)
@@ -218,8 +259,8 @@ func explore(r *mc.Run, f *fixture, sc scenario, bound int) {
 	curBound := 0
 	body := func(c *mc.Chooser) string {
 		s := mc.NewSched(c)
-		vhook.PointFn = s.Point
-		defer func() { vhook.PointFn = nil }()
+		vhook.PointFn, vhook.BlockFn = s.Point, s.Block
+		defer func() { vhook.PointFn, vhook.BlockFn = nil, nil }()
 		threads, shared := sc.build(f, s.Point)
 		results := make([][]string, len(threads))
 		for ti, calls := range threads {
@@ -262,7 +303,10 @@ func explore(r *mc.Run, f *fixture, sc scenario, bound int) {
 		}
 		id := fmt.Sprintf("scenario=%s schedule=%s", sc.name, mc.ChoicesString(c.Choices()))
 		var obs []string
-		if s.Aborted {
+		switch {
+		case s.Deadlock:
+			r.Violation("deadlock/"+sc.name, id, "no call can continue: every unfinished call waits for a lock another unfinished call holds (pcs "+strings.Join(s.Trace[max(0, len(s.Trace)-4):], " ")+")", map[string]any{"schedule": s.Trace})
+		case s.Aborted:
 			r.Violation("horizon/"+sc.name, id, "execution exceeded the step horizon (livelock?)", nil)
 		}
 		for ti, calls := range threads {
